@@ -31,6 +31,13 @@ fn git(repo: &Path, args: &[&str]) -> bool {
         .unwrap_or(false)
 }
 
+/// new packs bring one new file each: `f<n>` with n counting the ones already there
+fn next_file_number(repo: &Path) -> usize {
+    std::fs::read_dir(repo)
+        .map(|d| d.filter_map(Result::ok).filter(|e| e.file_name().to_string_lossy().starts_with('f')).count())
+        .unwrap_or(0)
+}
+
 fn env_step(repo: &Path, what: &str) -> bool {
     match what {
         "repack_ad" => git(repo, &["repack", "-a", "-d", "-q"]),
@@ -40,7 +47,7 @@ fn env_step(repo: &Path, what: &str) -> bool {
         "gc" => git(repo, &["gc", "-q", "--prune=now"]),
         // new objects arrive as a further pack (a fetch): commit, then pack only the new loose objects
         "new_pack" => {
-            let n = std::fs::read_dir(repo.join(".git/objects/pack")).map(|d| d.count()).unwrap_or(0);
+            let n = next_file_number(repo);
             std::fs::write(repo.join(format!("f{n}")), format!("content {n}")).is_ok()
                 && git(repo, &["add", "."])
                 && git(repo, &["-c", "user.name=v", "-c", "user.email=v@x", "commit", "-q", "-m", "more"])
@@ -98,21 +105,63 @@ fn calls_case(case: &Json) -> Json {
     let slots = case["slots"].as_u64().unwrap_or(8) as u16;
     let a = open(&repo, slots);
     let b = a.clone();
+    let mut s: Option<ArcHandle> = None;
+    let mut newest: Option<String> = None;
     let mut out = Vec::new();
     for step in case["steps"].as_array().expect("steps") {
-        if let Some(e) = step.get("env").and_then(|e| e.as_str()) {
-            out.push(json!({"env": if env_step(&repo, e) { "ok" } else { "failed" }}));
+        if let Some(e) = step.get("env").and_then(|e| e.as_str()).filter(|e| !e.is_empty()) {
+            let n = next_file_number(&repo);
+            let ok = env_step(&repo, e);
+            if ok && e == "new_pack" {
+                // the blob that came with the new pack lives in that pack only
+                let o = std::process::Command::new("git").current_dir(&repo).args(["rev-parse", &format!("HEAD:f{n}")]).output().expect("git");
+                newest = Some(String::from_utf8_lossy(&o.stdout).trim().to_string());
+            }
+            out.push(json!({"env": if ok { "ok" } else { "failed" }}));
             continue;
         }
-        let h = if jstr(&step["h"]) == "A" { &a } else { &b };
-        let obj = jstr(&step["obj"]);
-        let id = match case["objects"].get(obj) {
-            Some(o) => jstr(&o["id"]).to_string(),
-            None => "ffffffffffffffffffffffffffffffffffffffff".to_string(), // "missing"
+        match jstr(&step["op"]) {
+            "open_stable" => {
+                // a handle that asks the store to keep deleted packs available while it lives
+                let mut h = a.clone();
+                h.prevent_pack_unload();
+                s = Some(h);
+                out.push(json!({"handle": "opened"}));
+                continue;
+            }
+            "drop" => {
+                s = None;
+                out.push(json!({"handle": "dropped"}));
+                continue;
+            }
+            _ => {}
+        }
+        let h = match jstr(&step["h"]) {
+            "A" => &a,
+            "B" => &b,
+            "S" => s.as_ref().expect("S is open"),
+            other => panic!("handle {other}"),
         };
-        out.push(lookup(h, jstr(&step["op"]), &id));
+        let obj = jstr(&step["obj"]);
+        let id = match (obj, case["objects"].get(obj)) {
+            ("newest", _) => newest.clone().unwrap_or_else(|| "ffffffffffffffffffffffffffffffffffffffff".to_string()),
+            (_, Some(o)) => jstr(&o["id"]).to_string(),
+            (_, None) => "ffffffffffffffffffffffffffffffffffffffff".to_string(), // "missing"
+        };
+        let mut r = lookup(h, jstr(&step["op"]), &id);
+        // the index files present at this step: what the slots have to hold
+        let mut idx: Vec<String> = std::fs::read_dir(repo.join(".git/objects/pack"))
+            .map(|d| {
+                d.filter_map(|e| e.ok().map(|e| e.file_name().to_string_lossy().into_owned()))
+                    .filter(|n| n.ends_with(".idx") || n == "multi-pack-index")
+                    .collect()
+            })
+            .unwrap_or_default();
+        idx.sort();
+        r["idx"] = json!(idx);
+        out.push(r);
     }
-    drop((a, b));
+    drop((a, b, s));
     let _ = std::fs::remove_dir_all(&repo);
     Json::Array(out)
 }
